@@ -322,7 +322,7 @@ class SpectrumArithScenario(Scenario):
     name = 'spectrum_arith'
     prop = 'C13'
     quick_runs = 3000
-    thorough_runs = 300000
+    thorough_runs = 200000
     audit_every = 16
     rule = ('each run = 1-3 callers over a shared pool of 2-5 spectra (identical, nested, overlapping and disjoint ranges; uniform and '
             'non-uniform grids; unitless and flux-density values; all four wavelength units): histories of binary operators (method and '
@@ -531,7 +531,7 @@ class SpectrumArithScenario(Scenario):
         world['K'] = K
         events = []
         pool = self.make_pool(rng, events)
-        progs = [self.caller_prog(rng, c, pool, rng.randint(3, 14)) for c in range(K)]
+        progs = [self.caller_prog(rng, c, pool, rng.randint(3, 14 * self.depth)) for c in range(K)]
         out = []
         pos = [0] * K
         while True:
